@@ -55,9 +55,9 @@ func (t *Template) Exec(ctx hctx.Context) (string, error) {
 	}
 
 	ev := compiler{
-		ctx:         ctx,
-		program:     t.program,
-		loopControl: &loopSignal{},
+		ctx:     ctx,
+		program: t.program,
+		exec:    &execution{},
 	}
 
 	s, err := ev.compile()
